@@ -58,4 +58,119 @@ def reformat(pkgdir):
         open(f, 'w').write(text)
 
 
-GLOBAL = {'reformat': reformat, 'rename-locals': rename_locals}
+class _Logger(ast.NodeTransformer):
+    def visit_FunctionDef(self, node):
+        self.generic_visit(node)
+        call = ast.Expr(value=ast.Call(func=ast.Attribute(value=ast.Call(func=ast.Attribute(value=ast.Name(id='logging', ctx=ast.Load()), attr='getLogger', ctx=ast.Load()),
+                                                                     args=[ast.Constant(value='miros')], keywords=[]), attr='debug', ctx=ast.Load()),
+                                       args=[ast.Constant(value='enter ' + node.name)], keywords=[]))
+        pos = 1 if (node.body and isinstance(node.body[0], ast.Expr) and isinstance(node.body[0].value, ast.Constant) and isinstance(node.body[0].value.value, str)) else 0
+        # generators and functions starting with global/nonlocal keep those first
+        while pos < len(node.body) and isinstance(node.body[pos], (ast.Global, ast.Nonlocal)):
+            pos += 1
+        node.body.insert(pos, call)
+        return node
+
+
+def add_logging(pkgdir):
+    """a debug log line at the top of every function (import logging added)"""
+    for f in glob.glob(os.path.join(pkgdir, '*.py')):
+        t = ast.parse(open(f).read())
+        t = _Logger().visit(t)
+        pos = 1 if (t.body and isinstance(t.body[0], ast.Expr) and isinstance(t.body[0].value, ast.Constant)) else 0
+        while pos < len(t.body) and isinstance(t.body[pos], ast.ImportFrom) and t.body[pos].module == '__future__':
+            pos += 1
+        t.body.insert(pos, ast.Import(names=[ast.alias(name='logging')]))
+        ast.fix_missing_locations(t)
+        open(f, 'w').write(ast.unparse(t) + '\n')
+
+
+class _Annotator(ast.NodeTransformer):
+    def visit_FunctionDef(self, node):
+        self.generic_visit(node)
+        for a in node.args.posonlyargs + node.args.args + node.args.kwonlyargs:
+            if a.annotation is None and a.arg not in ('self', 'cls'):
+                a.annotation = ast.Constant(value='object')
+        return node
+
+
+def annotate(pkgdir):
+    """string type annotations on every parameter"""
+    for f in glob.glob(os.path.join(pkgdir, '*.py')):
+        t = ast.parse(open(f).read())
+        t = _Annotator().visit(t)
+        ast.fix_missing_locations(t)
+        open(f, 'w').write(ast.unparse(t) + '\n')
+
+
+def _terminates(stmts):
+    return bool(stmts) and isinstance(stmts[-1], (ast.Return, ast.Raise, ast.Continue, ast.Break))
+
+
+class _DedentElse(ast.NodeTransformer):
+    def _fix(self, stmts):
+        out = []
+        for st in stmts:
+            if isinstance(st, ast.If) and st.orelse and _terminates(st.body):
+                rest = st.orelse
+                st.orelse = []
+                out.append(st)
+                out.extend(self._fix(rest))
+            else:
+                out.append(st)
+        return out
+
+    def generic_visit(self, node):
+        super().generic_visit(node)
+        for f in ('body', 'orelse', 'finalbody'):
+            v = getattr(node, f, None)
+            if isinstance(v, list) and v and isinstance(v[0], ast.stmt):
+                setattr(node, f, self._fix(v))
+        return node
+
+
+class _SwapBranches(ast.NodeTransformer):
+    def visit_If(self, node):
+        self.generic_visit(node)
+        if node.orelse and not (len(node.orelse) == 1 and isinstance(node.orelse[0], ast.If)):
+            t = node.test
+            node.test = t.operand if (isinstance(t, ast.UnaryOp) and isinstance(t.op, ast.Not)) else ast.UnaryOp(op=ast.Not(), operand=t)
+            node.body, node.orelse = node.orelse, node.body
+        return node
+
+
+class _FlipCompare(ast.NodeTransformer):
+    FL = {ast.Eq: ast.Eq, ast.NotEq: ast.NotEq, ast.Lt: ast.Gt, ast.Gt: ast.Lt, ast.LtE: ast.GtE, ast.GtE: ast.LtE}
+
+    def visit_Compare(self, node):
+        self.generic_visit(node)
+        if len(node.ops) == 1 and type(node.ops[0]) in self.FL and not isinstance(node.comparators[0], ast.Constant) \
+                and not any(isinstance(n, ast.Call) for n in ast.walk(node)):
+            return ast.copy_location(ast.Compare(left=node.comparators[0], ops=[self.FL[type(node.ops[0])]()], comparators=[node.left]), node)
+        return node
+
+
+def _apply(pkgdir, tr):
+    for f in glob.glob(os.path.join(pkgdir, '*.py')):
+        t = ast.parse(open(f).read())
+        t = tr().visit(t)
+        ast.fix_missing_locations(t)
+        open(f, 'w').write(ast.unparse(t) + '\n')
+
+
+def dedent_else(pkgdir):
+    """`if c: ...; return x  else: B`  ->  `if c: ...; return x` followed by B (everywhere)"""
+    _apply(pkgdir, _DedentElse)
+
+
+def swap_branches(pkgdir):
+    """`if c: A else: B` -> `if not c: B else: A` (everywhere except elif ladders)"""
+    _apply(pkgdir, _SwapBranches)
+
+
+def flip_compare(pkgdir):
+    """`a == b` -> `b == a`, `a < b` -> `b > a` for call-free comparisons of two non-literals"""
+    _apply(pkgdir, _FlipCompare)
+
+
+GLOBAL = {'dedent-else': dedent_else, 'swap-branches': swap_branches, 'flip-compare': flip_compare, 'reformat': reformat, 'rename-locals': rename_locals, 'add-logging': add_logging, 'annotate': annotate}
